@@ -1,70 +1,6 @@
 /-
   NON-VACUITY AUDIT of the obligation theorems (Properties/C01 … C20, Extracted/EquivC03 … EquivC20).
 
-/-! ### C03: a saving job on a thread pool -/
-section C03Save
-open PysparklingVerif.SaveSched
-
-def c03SaveParts : List (List Nat) := [[1, 2], [3, 4], [5]]
-def c03SaveSched : List Nat := [2, 0, 1, 1, 0, 2, 1, 0, 2]
-
-theorem c03SaveComplete : Complete c03SaveParts.length c03SaveSched := by
-  intro i hi
-  match i, hi with
-  | 0, _ => decide
-  | 1, _ => decide
-  | 2, _ => decide
-  | n + 3, h => exact absurd h (by simp [c03SaveParts])
-
--- NONVACUOUS: PysparklingVerif.C03.save_any_complete_schedule
-example : (run stepNew c03SaveSched (initSys c03SaveParts)).tasks.all (·.pc == .done) = true :=
-  (C03.save_any_complete_schedule c03SaveParts c03SaveSched c03SaveComplete).1
-end C03Save
-
-
-/-! ### Extracted/EquivC15 -/
-section EquivC15
-open PysparklingVerif.Gen.C15 PysparklingVerif.Extracted.C15
-
--- NONVACUOUS: PysparklingVerif.Extracted.C15.renamed_names_agree
-example : renamedRowNames "b" "z" ["a", "b", "c"] [(), (), ()] = renamedSchemaNames "b" "z" ["a", "b", "c"] :=
-  (renamed_names_agree "b" "z" ["a", "b", "c"] [(), (), ()] (by decide)).1
-
--- NONVACUOUS: PysparklingVerif.Extracted.C15.toDF_names_agree
-example : toDFSchemaNames ["x", "y", "z"] ["a", "b", "c"] = ["x", "y", "z"] :=
-  (toDF_names_agree ["x", "y", "z"] ["a", "b", "c"] [(), (), ()] (by decide)).2 (by decide)
-
--- NONVACUOUS: PysparklingVerif.Extracted.C15.union_names_agree
-example : unionOtherRowNames ["a", "b", "c"] [(), (), ()] = ["a", "b", "c"] :=
-  union_names_agree ["a", "b", "c"] [(), (), ()] (by decide)
-end EquivC15
-
-/-! ### Extracted/EquivC13 -/
-section EquivC13
-open PysparklingVerif.Gen.C13 PysparklingVerif.Extracted.C13
-
-def c13L : List Field := [⟨"k", 0, false⟩, ⟨"a", 1, true⟩]
-def c13R : List Field := [⟨"b", 0, true⟩, ⟨"k", 0, false⟩]
-
--- NONVACUOUS: PysparklingVerif.Extracted.C13.mergeSchemas_names
-example : (mergeSchemas c13L c13R (toHow .left) (some ["k"])).map names =
-    some (Join.joinNames .left (names c13L) (names c13R) ["k"]) :=
-  mergeSchemas_names .left c13L c13R ["k"] (by decide) (by decide) (by decide) (by decide)
-
--- NONVACUOUS: PysparklingVerif.Extracted.C13.mergeSchemas_missing_column
-example : mergeSchemas c13L c13R .INNER_JOIN (some ["k", "z"]) = none :=
-  mergeSchemas_missing_column .INNER_JOIN c13L c13R ["k", "z"] "z" (by decide) (Or.inl (by decide))
-
--- NONVACUOUS: PysparklingVerif.Extracted.C13.full_join_keys_nullable
-example : ∀ f ∈ ([⟨"k", 0, true⟩, ⟨"a", 1, true⟩, ⟨"b", 0, true⟩] : List Field).take 1, f.nullable = true :=
-  full_join_keys_nullable c13L c13R ["k"] _ (by decide)
-
--- NONVACUOUS: PysparklingVerif.Extracted.C13.how_texts_distinct
-example : How.LEFT_SEMI_JOIN = How.LEFT_SEMI_JOIN := how_texts_distinct _ _ rfl
-end EquivC13
-
-
-
   For EVERY obligation theorem that has hypotheses there is an `example` below (marked `-- NONVACUOUS: <name>`) that
   exhibits concrete, non-trivial arguments — several partitions, failing attempts, non-empty caches, nulls, … — for
   which ALL hypotheses of the theorem hold at once; wherever possible the example APPLIES the theorem to those
@@ -1691,5 +1627,75 @@ end EquivC11
 -- NO-HYPOTHESES: PysparklingVerif.Extracted.C19.dispatch_names
 -- NO-HYPOTHESES: PysparklingVerif.Extracted.C20.hasInfix_slash
 -- NO-HYPOTHESES: PysparklingVerif.Extracted.C20.resolveFilenames_eq_model
+
+/-! ## sections that an earlier edit had placed inside the header comment (found and moved out) -/
+
+/-! ### C03: a saving job on a thread pool -/
+section C03Save
+open PysparklingVerif.SaveSched
+
+def c03SaveParts : List (List Nat) := [[1, 2], [3, 4], [5]]
+def c03SaveSched : List Nat := [2, 0, 1, 1, 0, 2, 1, 0, 2]
+
+theorem c03SaveComplete : Complete c03SaveParts.length c03SaveSched := by
+  intro i hi
+  match i, hi with
+  | 0, _ => decide
+  | 1, _ => decide
+  | 2, _ => decide
+  | n + 3, h => exact absurd h (by simp [c03SaveParts])
+
+-- NONVACUOUS: PysparklingVerif.C03.save_any_complete_schedule
+example : (run stepNew c03SaveSched (initSys c03SaveParts)).tasks.all (·.pc == .done) = true :=
+  (C03.save_any_complete_schedule c03SaveParts c03SaveSched c03SaveComplete).1
+end C03Save
+
+
+/-! ### Extracted/EquivC15 -/
+section EquivC15
+open PysparklingVerif.Gen.C15 PysparklingVerif.Extracted.C15
+
+-- NONVACUOUS: PysparklingVerif.Extracted.C15.renamed_names_agree
+example : renamedRowNames "b" "z" ["a", "b", "c"] [(), (), ()] = renamedSchemaNames "b" "z" ["a", "b", "c"] :=
+  (renamed_names_agree "b" "z" ["a", "b", "c"] [(), (), ()] (by decide)).1
+
+-- NONVACUOUS: PysparklingVerif.Extracted.C15.toDF_names_agree
+example : toDFSchemaNames ["x", "y", "z"] ["a", "b", "c"] = ["x", "y", "z"] :=
+  (toDF_names_agree ["x", "y", "z"] ["a", "b", "c"] [(), (), ()] (by decide)).2 (by decide)
+
+-- NONVACUOUS: PysparklingVerif.Extracted.C15.union_names_agree
+example : unionOtherRowNames ["a", "b", "c"] [(), (), ()] = ["a", "b", "c"] :=
+  union_names_agree ["a", "b", "c"] [(), (), ()] (by decide)
+-- NONVACUOUS: PysparklingVerif.Extracted.C15.withColumn_selection_is_model
+/-- the frame `SELECT a, a, c` (names not unique): replacing "c" -/
+example : (withColumnSelection "c" ["a", "a", "c"]).map (ColRef.eval 9 [1, 2, 3]) = [some 1, some 2, some 9] := by
+  rw [withColumn_selection_is_model "c" ["a", "a", "c"] [1, 2, 3] 9 (by decide)]; decide
+
+-- NO-HYPOTHESES: PysparklingVerif.Extracted.C15.withColumn_replaces_iff
+end EquivC15
+
+/-! ### Extracted/EquivC13 -/
+section EquivC13
+open PysparklingVerif.Gen.C13 PysparklingVerif.Extracted.C13
+
+def c13FL : List Field := [⟨"k", 0, false⟩, ⟨"a", 1, true⟩]
+def c13FR : List Field := [⟨"b", 0, true⟩, ⟨"k", 0, false⟩]
+
+-- NONVACUOUS: PysparklingVerif.Extracted.C13.mergeSchemas_names
+example : (mergeSchemas c13FL c13FR (toHow .left) (some ["k"])).map names =
+    some (Join.joinNames .left (names c13FL) (names c13FR) ["k"]) :=
+  mergeSchemas_names .left c13FL c13FR ["k"] (by decide) (by decide) (by decide) (by decide)
+
+-- NONVACUOUS: PysparklingVerif.Extracted.C13.mergeSchemas_missing_column
+example : mergeSchemas c13FL c13FR .INNER_JOIN (some ["k", "z"]) = none :=
+  mergeSchemas_missing_column .INNER_JOIN c13FL c13FR ["k", "z"] "z" (by decide) (Or.inl (by decide))
+
+-- NONVACUOUS: PysparklingVerif.Extracted.C13.full_join_keys_nullable
+example : ∀ f ∈ ([⟨"k", 0, true⟩, ⟨"a", 1, true⟩, ⟨"b", 0, true⟩] : List Field).take 1, f.nullable = true :=
+  full_join_keys_nullable c13FL c13FR ["k"] _ (by decide)
+
+-- NONVACUOUS: PysparklingVerif.Extracted.C13.how_texts_distinct
+example : How.LEFT_SEMI_JOIN = How.LEFT_SEMI_JOIN := how_texts_distinct _ _ rfl
+end EquivC13
 
 end PysparklingVerif.NonVacuity
